@@ -210,6 +210,7 @@ func runC07c(rc *RunCtx, race bool) {
 		return
 	}
 	rc.Nontrivial = true
+	rc.PostData = &c07hist{initial: initial, calls: log, resizes: resizes}
 	// ---- concurrent copies of one handshake: exactly one is served ----
 	rc.Phase = "concurrent-copies"
 	c2 := []int{1, 2, 10, 1000}[G.Draw(4)]
